@@ -63,6 +63,15 @@ def primed(ctx, T, cls, kind):
 PRIMINGS = ('fresh', 'after-burst', 'after-header-only')
 
 
+def reencode_other(m, legacy):
+    """an encoding is a value: encoding the same message object again (here: for the next frame and another timeslot) must not
+    alter the octets returned earlier, which the caller may still hold (queues, capture files)"""
+    fn, tn = m.fn, m.tn
+    m.fn = (fn + 1) % HYPER; m.tn = 7 - tn
+    try: m.gen_msg(legacy)
+    finally: m.fn, m.tn = fn, tn
+
+
 def h_tx(ctx, ver, blen, legacy):
     T = env.load(ctx, 'data_msg')
     with env.symbolic(ctx), ctx.no_raise('no-exception'):
@@ -70,6 +79,7 @@ def h_tx(ctx, ver, blen, legacy):
         data = m.gen_msg(legacy)
     for kind in PRIMINGS:
         with env.symbolic(ctx), ctx.no_raise(kind + ':no-exception'):
+            if kind == PRIMINGS[-1]: reencode_other(m, legacy)
             d = primed(ctx, T, T.data_msg.TxMsg, kind)
             d.parse_msg(data)
         for f in ('ver', 'fn', 'tn', 'pwr'):
@@ -86,6 +96,7 @@ def h_rx(ctx, ver, mod, nope, legacy):
         data = m.gen_msg(legacy)
     for kind in PRIMINGS:
         with env.symbolic(ctx), ctx.no_raise(kind + ':no-exception'):
+            if kind == PRIMINGS[-1]: reencode_other(m, legacy)
             d = primed(ctx, T, T.data_msg.RxMsg, kind)
             d.parse_msg(data)
         K = kind + ':'
